@@ -88,7 +88,9 @@ class C04(Spec):
             # no JSON representation / cyclic / failing callback: an error, never text
             if ok and s.get("ref") != "ok":
                 out.append(("unrepresentable-value-encoded", "%s %s: sonic=ok encoding/json=%s out=%s" % (case[0], case[2], s.get("ref"), s.get("out", "")[:200])))
-            if ok and s.get("valid") == "0":
+            # NoQuoteTextMarshaler with the TextMarshaler TP (text `tpN`, not a JSON literal): broken user promise
+            tp_noquote = "NoQuoteTextMarshaler" in opts_of(s) and case[2].startswith(("emb.mp", "ikey"))
+            if ok and s.get("valid") == "0" and not tp_noquote:
                 out.append(("malformed-output", "%s %s out=%s" % (case[0], case[2], s.get("out", "")[:200])))
             return out
         if case[0] == "mardeep":
@@ -168,6 +170,8 @@ def m_f32_double_rounding(d, params):
 
 def _unterminated_mod32(case):
     import re
+    if len(case) < 4:
+        return False
     for h in re.findall(r"\((?:lib|raw) ([0-9a-f]+)\)", case[3]):
         try:
             t = bytes.fromhex(h)
@@ -196,6 +200,8 @@ def m_unterminated_string_mod32(d, params):
 def _payloads(case):
     import re
     res = []
+    if len(case) < 4:
+        return res
     for h in re.findall(r"\((?:lib|raw) ([0-9a-f]+)\)", case[3]):
         try:
             t = bytes.fromhex(h)
